@@ -11,7 +11,9 @@ TRUSTED_BASE = [
 
 A_HASH = "A-hash: hash_key (salted Blake2b / SipHash) is injective on the keys of a history (checked dynamically: distinct generated keys never collide in the runs)"
 A_COMPRESS = "A-compress: decompress(compress v) = v for lz4 / snappy (exercised by every round trip in the runs)"
-P2_GAP = "physical layers below the logical pipeline (index pages, value-table chains, WAL bytes) are tied to the P1 model by correspondence, not by a refinement proof"
+P2_GAP = ("physical layers below the logical pipeline: for plain hash columns with single-slot values the index pages + byte-level value tables refine P1's "
+          "logical table (Pdb/Props/Refine.lean R1-R4); multipart values, rc / preimage / btree / multitree columns and the WAL byte format are tied to P1 "
+          "by correspondence only")
 
 P1_RULE = ("histories generated from one SplitMix64 state: commits of 1..6 ops over 1..3 columns and a small key pool "
            "(repeated keys, removals, invalid ops ~3%), interleaved with process / flush / enactall / clean / reindex / "
@@ -37,7 +39,7 @@ PROPS = {
                        "an independent BTreeMap oracle."),
         "level_note": ("Trusted: Lean kernel; the P1 model abstracts storage below the log-record level (tied by correspondence only); "
                        "hash injectivity (A-hash); compression round trip (A-compress); harness generators."),
-        "lean": ["Pdb.Props.C01", "Pdb.Proofs.Order"],
+        "lean": ["Pdb.Props.C01", "Pdb.Proofs.Order", "Pdb.Props.Refine"],
         "harness": [{"cmd": "p1", "quick": 300, "thorough": 20000}],
         "rule": P1_RULE,
         "assumptions": [A_HASH, A_COMPRESS, P2_GAP],
@@ -465,7 +467,7 @@ PROPS = {
         "trusted": ["tools/skeleton.py (Pdb/Gen/Order.lean)"],
     },
     "C09": {
-        "lean": ["Pdb.Props.C09", "Pdb.Proofs.GenBits"],
+        "lean": ["Pdb.Props.C09", "Pdb.Proofs.GenBits", "Pdb.Props.Refine"],
         "harness": [{"cmd": "c09", "quick": 48, "thorough": 600, "timeout": 3000}],
         "level_text": ("Lean theorems C09_index_inv_preserved / C09_lookup_latest / C09_no_panic / C09_collision_individual over all histories (set, del, "
                        "reindex batch, enacted drop, reopen/recovery, relaunched growth) of the index-layer model (current table + queue of older tables, "
